@@ -54,6 +54,13 @@ def run(chk):
         # quoted column names that contain a dot (one name all the same): the column cases again, where both spellings are quoted
         cases += [dict(c, dotted=True) for c in cs if c["rpos"] in ("next_stmt_colref", "next_stmt_colref_after_rename")
                   and c["wname"][0]["q"] != "none" and c["rname"][0]["q"] != "none"]
+    # bigquery's other spelling of a quoted path: one pair of backticks around the whole dotted name, `dbx.sch.tab` - the same
+    # entity as the name quoted part by part (it splits at its dots all the same).  The table cases whose parts are all backtick
+    # quoted once more with the written / the read / both names spelled that way
+    bq = [c for c in cases if (c["wpos"], c["rpos"]) in (("target", "next_stmt_from"), ("from", "from")) and not c.get("dotted")
+          and all(p["q"] == "bt" for p in list(c["wname"]) + list(c["rname"])) and (len(c["wname"]) >= 2 or len(c["rname"]) >= 2)]
+    rnd.shuffle(bq)
+    cases += [dict(c, whole=rnd.choice(["w", "r", "both"])) for c in bq[:300 if quick else 5000]]
     pool = mp.Pool(16)
     try:
         res = pool.map(_chunk, chunks(cases, 64))
